@@ -217,7 +217,12 @@ WIRE_RULE = ('scenarios enumerated/sampled by TLC from GenWire!%s (environment s
 def check_C02(ctx):
     vt.tlc_design(ctx, 'MatcherMC', label='matchers: C01/C02/C04 design invariants over the perturbation lattice')
     scen = vt.tlc_generate(ctx, 'GenWire', 'C02', 250 if ctx.quick() else 4000)
-    wire_family(ctx, 'C02', scen, WIRE_RULE % 'C02All', nontrivial=delivered_something)
+    # replies with outer IP options also run behind the real capture filters (the filter computes the transport offset from the header length)
+    for s in list(scen):
+        if '/opt0/' not in s['label']:
+            f = json.loads(json.dumps(s)); f['id'] += '/filtered'; f['label'] += '/filtered'; f['filter'] = True
+            scen.append(f)
+    wire_family(ctx, 'C02', scen, WIRE_RULE % 'C02All (replies with outer IP options also behind the real capture filters)', nontrivial=delivered_something)
     vt.write_evidence(ctx, 'model_checking', ctx_rule(ctx), exhaustive=False)
 
 def check_C04(ctx):
